@@ -31,6 +31,24 @@ type Tape struct {
 	Cycle        []string `json:"cycle,omitempty"`         // when set, the tail is this sequence repeated for ever instead of one constant response
 	GapS         int64    `json:"gap_s,omitempty"`         // simulated seconds between the earlier calls and the judged one (tickets then live 10 minutes, renewable)
 	Warm         []string `json:"warm,omitempty"`          // earlier calls of the same spnego.Client (GET), each against a server answering this kind for ever
+	PreAuth      string   `json:"pre_auth,omitempty"`      // api=do: the request handed to Do already carries an Authorization header: stale (a Negotiate token left by an earlier use of the request) | basic
+}
+
+// other legal spellings of "401 with a bare Negotiate challenge" (RFC 7235: several header fields, a
+// list of challenges in one field, case-insensitive scheme); seeded runs only
+var challengeForms = []string{"401-negotiate-after-basic", "401-negotiate-in-list", "401-negotiate-lowercase"}
+
+// IsChallenge: the response is a 401 offering Negotiate without a token.
+func IsChallenge(kind string) bool {
+	if kind == "401-negotiate" {
+		return true
+	}
+	for _, f := range challengeForms {
+		if f == kind {
+			return true
+		}
+	}
+	return false
 }
 
 // response alphabet of the property's quantifier
@@ -58,10 +76,10 @@ func scriptsUpTo(n int) int {
 func Meta() core.Meta {
 	return core.Meta{
 		Engine: "c18", Property: "C18", Level: "exploration",
-		Rule:       "case = one run: a logged-in real client issues one HTTP call through spnego.Client against a scripted server: every response sequence of length <= 3 (quick) / <= 5 (thorough) over {200, 401 bare Negotiate, 401 Negotiate with reject token, 401 other scheme, 302 same host, 302 other host, 500} followed by each constant tail is enumerated; method {GET, HEAD, POST, PUT}, body size {0, 1, 4 KiB, 1 MiB}, how much of the body the server reads before answering {all, k bytes, none}, explicit or URL-derived SPN (port, trailing dot, CNAME, failed look-up, upper case) and the etype of the service ticket are drawn per case; distinct = distinct (script, tail, method, body class, read class, SPN class, outcome); non-trivial = the server sent at least one challenge or redirect",
+		Rule:       "case = one run: a logged-in real client issues one HTTP call through spnego.Client against a scripted server: every response sequence of length <= 3 (quick) / <= 5 (thorough) over {200, 401 bare Negotiate, 401 Negotiate with reject token, 401 other scheme, 302 same host, 302 other host, 500} followed by each constant tail is enumerated; method {GET, HEAD, POST, PUT}, body size {0, 1, 4 KiB, 1 MiB}, how much of the body the server reads before answering {all, k bytes, none}, explicit or URL-derived SPN (port, trailing dot, CNAME, failed look-up, upper case) and the etype of the service ticket are drawn per case; seeded runs also spell the challenge in the other legal forms (second header field after Basic, list in one field, lower case), hand Do a request that already carries an Authorization header, and reuse the client after earlier calls; distinct = distinct (script, tail, method, body class, read class, SPN class, outcome); non-trivial = the server sent at least one challenge or redirect",
 		SweepQuick: scriptsUpTo(3), SweepThorough: scriptsUpTo(5),
 		SeededQuick: 1500, SeededThorough: 60000,
-		WorkloadProbes: []string{"challenged", "challenged-with-body", "early-response-before-body-read", "ever-challenging-tail", "ever-redirecting-tail", "periodic-tail", "reused-client", "reused-client-after-redirect-limit", "reused-client-after-ticket-expiry", "cross-realm-service", "redirect-then-challenge", "spn-derived-via-cname", "spn-derived-lookup-failed", "token-checked-by-acceptor"},
+		WorkloadProbes: []string{"challenged", "challenged-with-body", "early-response-before-body-read", "ever-challenging-tail", "ever-redirecting-tail", "periodic-tail", "reused-client", "reused-client-after-redirect-limit", "reused-client-after-ticket-expiry", "challenge-in-other-legal-form", "request-arrives-with-authorization-header", "redirect-after-reuse", "cross-realm-service", "redirect-then-challenge", "spn-derived-via-cname", "spn-derived-lookup-failed", "token-checked-by-acceptor"},
 		Components: map[string]string{
 			"spnego.Client (Do/Get/Post/Head), SetSPNEGOHeader, setRequestSPN, SPNEGOClient, NewNegTokenInitKRB5, NewKRB5TokenAPREQ, krb5 client, token encoders": "real",
 			"net/http client (redirect policy, cookie jar)": "real",
@@ -128,6 +146,22 @@ func Gen(caseID, tier string) (json.RawMessage, error) {
 			tp.Cycle = append(tp.Cycle, r.Pick("401-negotiate", "302-same", "302-other", "302-same", "401-reject-token", "500"))
 		}
 	}
+	if kind == "seed" && r.Chance(1, 4) {
+		// the challenge in another legal form
+		form := func(k string) string {
+			if k == "401-negotiate" && r.Chance(2, 3) {
+				return challengeForms[r.Intn(len(challengeForms))]
+			}
+			return k
+		}
+		for i := range tp.Script {
+			tp.Script[i] = form(tp.Script[i])
+		}
+		for i := range tp.Cycle {
+			tp.Cycle[i] = form(tp.Cycle[i])
+		}
+		tp.Tail = form(tp.Tail)
+	}
 	tp.Etype = etypes[r.Intn(len(etypes))]
 	tp.SPNMode = r.Pick("explicit", "derived", "derived")
 	tp.Host = hosts[r.Intn(len(hosts))]
@@ -165,6 +199,9 @@ func Gen(caseID, tier string) (json.RawMessage, error) {
 		tp.API = r.Pick("do", "post")
 	case "HEAD":
 		tp.API = r.Pick("do", "head")
+	}
+	if kind == "seed" && tp.API == "do" && r.Chance(1, 6) {
+		tp.PreAuth = r.Pick("stale", "stale", "basic")
 	}
 	return core.MustJSON(tp), nil
 }
